@@ -70,16 +70,17 @@ def multisigVerifyP {κ : Type} (vm : κ → Bytes → Bytes → Option Bool) (k
 
 /-! ## MultiSignature assembly -/
 
-/-- `MultiSignature.AddSignatureByIndex` as coded: replace when the index exists, otherwise pad
-with `[]byte{0}` for `i ∈ [len, index-1)` and append. -/
+/-- `MultiSignature.AddSignatureByIndex` (after fix 703b207): replace when the index exists,
+otherwise pad with `[]byte{0}` for `i ∈ [len, index)` and append — the signature lands at `index`. -/
 def addSignatureByIndex (sigs : List Bytes) (sig : Bytes) (index : Nat) : List Bytes :=
   if index < sigs.length then sigs.set index sig
-  else sigs ++ List.replicate (index - 1 - sigs.length) [0] ++ [sig]
-
-/-- The repaired padding (`i ∈ [len, index)`): the signature lands at `index`. -/
-def addSignatureByIndexFixed (sigs : List Bytes) (sig : Bytes) (index : Nat) : List Bytes :=
-  if index < sigs.length then sigs.set index sig
   else sigs ++ List.replicate (index - sigs.length) [0] ++ [sig]
+
+/-- `TxBuilder.SignMultisigTransaction` over a whole signing session: member `o` adds its signature
+`sigOf o` at its own index (`AddSignature` → `getIndex` → `AddSignatureByIndex`), in the order
+the members happen to sign. -/
+def assemble (sigOf : Nat → Bytes) (order : List Nat) : List Bytes :=
+  order.foldl (fun acc o => addSignatureByIndex acc (sigOf o) o) []
 
 /-! ## Keys -/
 
